@@ -245,6 +245,25 @@ func cmdCheck(args []string) {
 		fmt.Printf("UNDECIDED property=%s function=%s\n", prop, l)
 		notes = append(notes, "engine-limit: "+l)
 		level = "other"
+		// Obligations that were discharged for this function on the recorded
+		// baseline can no longer even be generated: the contract does not fit
+		// the code any more (or the code left the supported subset).  They are
+		// reported - an obligation that passed on the unchanged tree and now
+		// fails - with the reason; there is no counterexample to replay.
+		fn := l
+		if i := strings.Index(l, ":"); i > 0 {
+			fn = l[:i]
+		}
+		if n := base.Properties[prop][fn]; n > 0 && !*baseline {
+			violations++
+			os.MkdirAll(replayDir, 0o755)
+			path := filepath.Join(replayDir, "inapplicable-"+sanitize(fn)+".json")
+			writeJSON(path, map[string]interface{}{"property": prop, "obligation": fn + ".contract", "status": "undecided",
+				"what": fmt.Sprintf("the %d obligations recorded for %s can no longer be generated: %s", n, fn, l),
+				"note": "no counterexample exists for an obligation that cannot be generated; the verifier output is the reason above"})
+			vlines = append(vlines, fmt.Sprintf("VIOLATION property=%s replay=%s no-failing-input-found", prop, path))
+			fmt.Printf("FAILED %s.contract: %s\n", fn, l)
+		}
 	}
 	if len(groups) == 0 {
 		level = "other"
